@@ -54,6 +54,7 @@ type c10World struct {
 	argOf     map[int]c10Arg
 	log       []string
 	gensym    int
+	goBodies  bool                     // :around bodies are one call of the Go primitive c10-ar (concurrent facets)
 	conc      map[slip.Object][]string // concurrent facet: per-call logs keyed by the first argument object
 	concMu    sync.Mutex
 }
@@ -81,39 +82,73 @@ type c10Prim struct {
 	kind string
 }
 
+func (w *c10World) emit(key slip.Object, ev string) {
+	if w.conc != nil {
+		// concurrent facets: the event belongs to the call whose first argument is this object
+		w.concMu.Lock()
+		w.conc[key] = append(w.conc[key], ev)
+		w.concMu.Unlock()
+		return
+	}
+	w.log = append(w.log, ev)
+}
+
 func (f *c10Prim) Call(s *slip.Scope, args slip.List, depth int) slip.Object {
 	w := c10W
 	id := int64(-1)
 	if 0 < len(args) {
 		id, _ = c10Fixnum(args[0])
 	}
-	var ev string
+	var key slip.Object
+	if 0 < len(args) {
+		key = args[len(args)-1]
+	}
+	npFlag := func(v slip.Object) string {
+		switch v {
+		case nil:
+			return "-"
+		case slip.True:
+			return "+"
+		}
+		return ""
+	}
 	switch f.kind {
 	case "tr":
-		ev = fmt.Sprintf("m%d", id)
+		w.emit(key, fmt.Sprintf("m%d", id))
 	case "lv":
-		ev = fmt.Sprintf("l%d", id)
+		w.emit(key, fmt.Sprintf("l%d", id))
 	case "en":
 		flag := ""
 		if 1 < len(args) {
-			switch args[1] {
-			case nil:
-				flag = "-"
-			case slip.True:
-				flag = "+"
-			}
+			flag = npFlag(args[1])
 		}
-		ev = fmt.Sprintf("e%d%s", id, flag)
+		w.emit(key, fmt.Sprintf("e%d%s", id, flag))
+	case "ar":
+		// (c10-ar id mode x [y…]): a whole :around body in Go (mode 0 guarded, 1 direct, 2 stop),
+		// used by the concurrent facets: slip compiles the sub-forms of let / if lazily and in
+		// place on their first evaluation, which is not safe when several routines evaluate a
+		// fresh body at the same time; a body made of one call with atom arguments has no such
+		// sub-forms. next-method-p and call-next-method are the real ones, applied in this scope.
+		if len(args) < 3 {
+			return nil
+		}
+		mode, _ := c10Fixnum(args[1])
+		key = args[2]
+		rest := args[2:]
+		var np slip.Object
+		if mode != 1 {
+			np = slip.MustFindFunc("next-method-p").Apply(s, slip.List{}, depth)
+			w.emit(key, fmt.Sprintf("e%d%s", id, npFlag(np)))
+		} else {
+			w.emit(key, fmt.Sprintf("e%d", id))
+		}
+		var v slip.Object = slip.Fixnum(id)
+		if mode == 1 || (mode == 0 && np != nil) {
+			v = slip.MustFindFunc("call-next-method").Apply(s, append(slip.List{}, rest...), depth)
+		}
+		w.emit(key, fmt.Sprintf("l%d", id))
+		return v
 	}
-	if w.conc != nil {
-		// concurrent facet: the event belongs to the call whose first argument is this object
-		w.concMu.Lock()
-		key := args[len(args)-1]
-		w.conc[key] = append(w.conc[key], ev)
-		w.concMu.Unlock()
-		return nil
-	}
-	w.log = append(w.log, ev)
 	return nil
 }
 
@@ -123,7 +158,7 @@ func c10Init() *c10World {
 	}
 	w := &c10World{scope: slip.NewScope(), classID: map[string]int{}, cpl: map[int][]int{}, argOf: map[int]c10Arg{}}
 	c10W = w
-	for _, kind := range []string{"tr", "en", "lv"} {
+	for _, kind := range []string{"tr", "en", "lv", "ar"} {
 		kind := kind
 		name := "c10-" + kind
 		slip.Define(
@@ -390,6 +425,8 @@ func (w *c10World) form(g string, n int, op c10Op) string {
 		switch {
 		case op.qual != 'r':
 			body = fmt.Sprintf("(c10-tr %d x) %d", op.id, op.id)
+		case w.goBodies:
+			body = fmt.Sprintf("(c10-ar %d %d %s)", op.id, strings.IndexByte("gds", op.mode), args)
 		case op.mode == 'g':
 			body = fmt.Sprintf("(let ((np (next-method-p))) (c10-en %d np x) (let ((v (if np (call-next-method %s) %d))) (c10-lv %d x) v))",
 				op.id, args, op.id, op.id)
@@ -912,12 +949,19 @@ func (h c10Hist) nontrivial() bool {
 
 func c10Worker() {
 	w := c10Init()
+	if mode := os.Getenv("VH_C10_WORKER"); mode == "conc" || mode == "race" {
+		w.goBodies = true
+	}
 	sc := bufio.NewScanner(os.Stdin)
 	sc.Buffer(make([]byte, 1<<20), 1<<26)
 	out := bufio.NewWriterSize(os.Stdout, 1<<20)
 	for sc.Scan() {
 		if strings.HasPrefix(sc.Text(), "conc ") {
 			fmt.Fprintln(out, w.runConc(sc.Text()))
+			continue
+		}
+		if strings.HasPrefix(sc.Text(), "race ") {
+			fmt.Fprintln(out, w.runRace(sc.Text()))
 			continue
 		}
 		h, ok := c10Parse(sc.Text())
@@ -944,8 +988,8 @@ func c10Pipe(cmd *exec.Cmd, lines []string) ([]string, error) {
 	cmd.Stderr = &errb
 	if err := cmd.Run(); err != nil {
 		msg := errb.String()
-		if 600 < len(msg) {
-			msg = msg[:600]
+		if 12000 < len(msg) {
+			msg = msg[:12000]
 		}
 		return nil, fmt.Errorf("%v: %s", err, strings.TrimSpace(msg))
 	}
@@ -1261,6 +1305,473 @@ func c10RunConcLines(c *lib.Ctx, lines []string) ([]string, error) {
 }
 
 // ---------------------------------------------------------------------------------------------
+// race rounds (both tiers): many short rounds on one generic function. In each round 1–3
+// goroutines call with argument class tuples that are NOT in the dispatch cache while another
+// goroutine performs one mutation (a defmethod creating a new applicable specializer tuple, a
+// defmethod replacing / adding a daemon in place, or a remove-method). Judged, never by timing:
+//   * post-quiescence (deterministic): after all goroutines of the round have finished, sequential
+//     calls with the same class tuples must produce exactly the specification's outcome on the table
+//     after the mutation — a completed defmethod / remove-method is visible to the very next call;
+//   * linearizability of the racing calls in rounds whose mutation creates a fresh specializer
+//     tuple: each racing call's outcome is the specification's before or after the mutation.
+//     (In-place rounds mutate a Combination the running call may be reading; their racing calls are
+//     not judged, only what the generic function does once everything has finished.)
+//
+//   race <n> <spin-seed> <round>*      round = <mutation-op>/<tuple>[,<tuple>…]     tuple = class.class
+//   reply: ok <racing outcomes joined by ;>/<post-quiescence outcomes joined by ;> …   (one word per round)
+
+type c10RaceRound struct {
+	mut    c10Op
+	tuples [][]int
+}
+
+func c10ParseRace(line string) (n int, seed uint64, rounds []c10RaceRound, ok bool) {
+	words := strings.Fields(line)
+	if len(words) < 4 || words[0] != "race" {
+		return
+	}
+	n, _ = strconv.Atoi(words[1])
+	seed, _ = strconv.ParseUint(words[2], 10, 64)
+	for _, rw := range words[3:] {
+		parts := strings.SplitN(rw, "/", 2)
+		if len(parts) != 2 {
+			return
+		}
+		h, good := c10Parse("disp run " + words[1] + " 0 0:0 " + parts[0])
+		if !good || len(h.ops) != 1 || h.ops[0].kind == 'c' {
+			return
+		}
+		rd := c10RaceRound{mut: h.ops[0]}
+		for _, tw := range strings.Split(parts[1], ",") {
+			t, good := c10Ints(tw)
+			if !good || len(t) != n {
+				return
+			}
+			rd.tuples = append(rd.tuples, t)
+		}
+		rounds = append(rounds, rd)
+	}
+	return n, seed, rounds, true
+}
+
+var c10SpinSink atomic.Int64
+
+func (w *c10World) runRace(line string) string {
+	n, seed, rounds, ok := c10ParseRace(line)
+	if !ok {
+		return "bad-request race"
+	}
+	w.gensym++
+	g := fmt.Sprintf("c10r%d", w.gensym)
+	if o := lib.EvalString(w.scope, fmt.Sprintf("(defgeneric %s (%s))", g, strings.Join([]string{"x", "y", "z"}[:n], " "))); !o.Ok {
+		return "ok Xdefgeneric:" + o.Class
+	}
+	// per racer slot: own instances of every instance class (events are attributed by identity)
+	const slots = 3
+	insts := []string{"c10a", "c10b", "c10c", "c10d"}
+	scopes := make([]*slip.Scope, slots)
+	first := make([]map[int]slip.Object, slots) // slot -> class id -> the object used as first argument
+	for sl := 0; sl < slots; sl++ {
+		scopes[sl] = slip.NewScope()
+		first[sl] = map[int]slip.Object{}
+		for _, cn := range insts {
+			for pos := 0; pos < n; pos++ {
+				o := lib.EvalString(w.scope, fmt.Sprintf("(make-instance '%s)", cn))
+				if !o.Ok {
+					return "bad-request race-instance"
+				}
+				scopes[sl].Let(slip.Symbol(fmt.Sprintf("q%d%s", pos, cn)), o.Value)
+				if pos == 0 {
+					first[sl][w.classID[cn]] = o.Value
+				}
+			}
+		}
+	}
+	rng := lib.NewRng(seed)
+	w.conc = map[slip.Object][]string{}
+	defer func() { w.conc = nil }()
+	callForm := func(sl int, t []int) (slip.Object, slip.Object, bool) {
+		var as []string
+		for pos, c := range t {
+			as = append(as, fmt.Sprintf("q%d%s", pos, w.className[c]))
+		}
+		key, has := first[sl][t[0]]
+		if !has {
+			return nil, nil, false
+		}
+		return slip.ReadString(fmt.Sprintf("(%s %s)", g, strings.Join(as, " ")), scopes[sl])[0], key, true
+	}
+	doCall := func(sl int, form, key slip.Object) string {
+		w.concMu.Lock()
+		delete(w.conc, key)
+		w.concMu.Unlock()
+		o := lib.Protect(func() slip.Object { return scopes[sl].Eval(form, 0) })
+		w.concMu.Lock()
+		evs := append([]string{}, w.conc[key]...)
+		w.concMu.Unlock()
+		tr := "-"
+		if 0 < len(evs) {
+			tr = strings.Join(evs, ",")
+		}
+		switch {
+		case o.Ok && o.Value == nil:
+			return tr + "=nil"
+		case o.Ok:
+			if v, isFix := c10Fixnum(o.Value); isFix {
+				return tr + "=" + strconv.FormatInt(v, 10)
+			}
+			return tr + "=?" + strings.ReplaceAll(o.Text, " ", "_")
+		case o.Class == "no-applicable-method-error":
+			return tr + "!na"
+		}
+		return tr + "!" + o.Class
+	}
+	spin := func(k int) {
+		for i := 0; i < k; i++ {
+			c10SpinSink.Add(1)
+		}
+	}
+	mscope := slip.NewScope()
+	out := []string{"ok"}
+	for ri, rd := range rounds {
+		mform := slip.ReadString(w.form(g, n, rd.mut), w.scope)[0]
+		type racer struct {
+			form, key slip.Object
+			res       string
+		}
+		racers := make([]*racer, 0, len(rd.tuples))
+		for sl, t := range rd.tuples {
+			if slots <= sl {
+				break
+			}
+			f, k, good := callForm(sl, t)
+			if !good {
+				return "bad-request race-tuple"
+			}
+			racers = append(racers, &racer{form: f, key: k})
+		}
+		begin := make(chan struct{})
+		var wg sync.WaitGroup
+		mutRes := ""
+		dm := rng.Intn(60)
+		wg.Add(1)
+		go func() {
+			defer wg.Done()
+			<-begin
+			spin(dm)
+			if o := lib.Protect(func() slip.Object { return mscope.Eval(mform, 0) }); !o.Ok {
+				mutRes = fmt.Sprintf("X%d:%s", ri, o.Class)
+			}
+		}()
+		for sl, rc := range racers {
+			wg.Add(1)
+			dr := rng.Intn(60)
+			go func(sl int, rc *racer, dr int) {
+				defer wg.Done()
+				<-begin
+				spin(dr)
+				rc.res = doCall(sl, rc.form, rc.key)
+			}(sl, rc, dr)
+		}
+		close(begin)
+		wg.Wait()
+		// quiescence: every goroutine of the round has returned; now sequential calls
+		if mutRes != "" {
+			out = append(out, mutRes)
+			break
+		}
+		var rres, pres []string
+		for sl, rc := range racers {
+			rres = append(rres, rc.res)
+			pres = append(pres, doCall(sl, rc.form, rc.key))
+		}
+		out = append(out, strings.Join(rres, ";")+"/"+strings.Join(pres, ";"))
+	}
+	slip.CurrentPackage.Undefine(g)
+	return strings.Join(out, " ")
+}
+
+// raceScenario draws one race line: a generic function with a few initial methods and `rounds`
+// rounds. The racing tuples of a round are never the ones called in the previous round (those are
+// in the cache after its post-quiescence calls unless the mutation of this round… clears it first),
+// so a racing call normally has to build its effective method.
+func (w *c10World) raceScenario(r *lib.Rng, rounds int) string {
+	n := 1 + r.Intn(2)
+	specs := []int{w.classID["c10a"], w.classID["c10b"], w.classID["c10c"], w.classID["c10d"], w.classID["standard-object"], 0}
+	insts := []int{w.classID["c10a"], w.classID["c10b"], w.classID["c10c"], w.classID["c10d"]}
+	randKey := func() []int {
+		t := make([]int, n)
+		for j := range t {
+			t[j] = specs[r.Intn(len(specs))]
+		}
+		return t
+	}
+	type slot struct {
+		q byte
+		k string
+	}
+	table := map[slot][]int{}
+	var words []string
+	id := 300
+	last := map[string]bool{}
+	for i := 0; i < rounds; i++ {
+		var op c10Op
+		// mostly definitions under tuples that are not in the table at all (fresh), some in place,
+		// some removals of what exists
+		x := r.Intn(100)
+		var existing []slot
+		for sl := range table {
+			existing = append(existing, sl)
+		}
+		sort.Slice(existing, func(a, b int) bool {
+			if existing[a].k != existing[b].k {
+				return existing[a].k < existing[b].k
+			}
+			return existing[a].q < existing[b].q
+		})
+		occupied := map[string]bool{}
+		for sl := range table {
+			occupied[sl.k] = true
+		}
+		pRemove := 15 + 12*len(occupied) // keep the table small so that fresh tuples stay available
+		if 70 < pRemove {
+			pRemove = 70
+		}
+		switch {
+		case x < pRemove && 0 < len(existing): // remove
+			sl := existing[r.Intn(len(existing))]
+			op = c10Op{kind: 'r', qual: sl.q, key: table[sl]}
+			delete(table, sl)
+		case x < pRemove+12 && 0 < len(existing): // replace in place / add a qualifier to an existing tuple
+			sl := existing[r.Intn(len(existing))]
+			id++
+			op = c10Op{kind: 'd', qual: "pbar"[r.Intn(4)], key: table[sl], id: id, mode: 's'}
+		default: // a definition under a specializer tuple that holds nothing (a few tries), else anywhere
+			key := randKey()
+			for try := 0; try < 6 && occupied[c10Join(key)]; try++ {
+				key = randKey()
+			}
+			id++
+			op = c10Op{kind: 'd', qual: "pbarp"[r.Intn(5)], key: key, id: id, mode: 's'}
+		}
+		if op.kind == 'd' {
+			if op.qual == 'r' {
+				op.mode = "ggds"[r.Intn(4)]
+			}
+			table[slot{op.qual, c10Join(op.key)}] = op.key
+		}
+		// racing tuples: 1–3, not called in the previous round
+		var tuples []string
+		now := map[string]bool{}
+		for k, want := 0, 3-r.Intn(3)/2; k < want; k++ { // 3 racers in two rounds out of three, else 2
+			for try := 0; try < 8; try++ {
+				t := make([]int, n)
+				for j := range t {
+					t[j] = insts[r.Intn(len(insts))]
+				}
+				if tj := c10Join(t); !last[tj] && !now[tj] {
+					now[tj] = true
+					tuples = append(tuples, tj)
+					break
+				}
+			}
+		}
+		if len(tuples) == 0 {
+			t := make([]int, n)
+			for j := range t {
+				t[j] = insts[i%len(insts)]
+			}
+			tuples = []string{c10Join(t)}
+			now[tuples[0]] = true
+		}
+		last = now
+		words = append(words, op.word()+"/"+strings.Join(tuples, ","))
+	}
+	return fmt.Sprintf("race %d %d %s", n, r.U64()%1000000, strings.Join(words, " "))
+}
+
+type c10RaceStats struct {
+	rounds, fresh, racingCalls, sawBefore, sawAfter, postCalls int
+}
+
+// raceCheck judges the reply of one race line against the model. It returns the description of
+// the first failing round (and a reduced race line ending with that round) or "".
+func (w *c10World) raceCheck(c *lib.Ctx, line, reply string, st *c10RaceStats) (bad, aspect, upto string) {
+	w.goBodies = true // the forms quoted in messages are the ones the race worker evaluated
+	defer func() { w.goBodies = false }()
+	n, _, rounds, ok := c10ParseRace(line)
+	if !ok {
+		return "unparsable race line", "machinery", line
+	}
+	// one model history: per round  c:T… (before)  mutation  c:T… (after)
+	used := map[int]bool{}
+	var ops []string
+	for _, rd := range rounds {
+		for _, t := range rd.tuples {
+			ops = append(ops, "c:"+c10Join(t))
+			for _, cl := range t {
+				used[cl] = true
+			}
+		}
+		ops = append(ops, c10ModelLine(rd.mut.word()))
+		for _, t := range rd.tuples {
+			ops = append(ops, "c:"+c10Join(t))
+		}
+	}
+	var ids []int
+	for cl := range used {
+		ids = append(ids, cl)
+	}
+	sort.Ints(ids)
+	var tbl []string
+	for _, cl := range ids {
+		tbl = append(tbl, fmt.Sprintf("%d:%s", cl, c10Join(w.cpl[cl])))
+	}
+	mline := fmt.Sprintf("disp run %d 0 %s %s", n, strings.Join(tbl, ";"), strings.Join(ops, " "))
+	h, _ := c10Parse(mline)
+	exp := strings.Fields(c10Canon(h, c.Model([]string{mline})[0]))[1:]
+	rwords := strings.Fields(reply)[1:]
+	words := strings.Fields(line)
+	pos := 0
+	present := map[string]int{} // specializer tuple -> number of daemons stored under it
+	for ri, rd := range rounds {
+		k := len(rd.tuples)
+		before, after := exp[pos:pos+k], exp[pos+k:pos+2*k]
+		pos += 2 * k
+		fresh := rd.mut.kind == 'd' && present[c10Join(rd.mut.key)] == 0
+		upto = strings.Join(words[:3+ri+1], " ")
+		if len(rwords) <= ri {
+			return "no reply for round " + strconv.Itoa(ri), "machinery", upto
+		}
+		if strings.HasPrefix(rwords[ri], "X") {
+			return "the mutation failed: " + rwords[ri], "mutation-error", upto
+		}
+		parts := strings.SplitN(rwords[ri], "/", 2)
+		racing, post := strings.Split(parts[0], ";"), strings.Split(parts[1], ";")
+		st.rounds++
+		for i := 0; i < k && i < len(post); i++ {
+			st.postCalls++
+			if post[i] != after[i] {
+				return fmt.Sprintf("round %d: after %s and the racing calls had finished, a sequential call with classes %s gave %s; specification on the table after the mutation: %s (before it: %s)",
+					ri, w.form("g", n, rd.mut), c10Join(rd.tuples[i]), post[i], after[i], before[i]), "post-quiescence", upto
+			}
+		}
+		if fresh {
+			st.fresh++
+			for i := 0; i < k && i < len(racing); i++ {
+				st.racingCalls++
+				switch racing[i] {
+				case after[i]:
+					st.sawAfter++
+				case before[i]:
+					st.sawBefore++
+				default:
+					return fmt.Sprintf("round %d: a call with classes %s racing with %s gave %s; specification before: %s, after: %s",
+						ri, c10Join(rd.tuples[i]), w.form("g", n, rd.mut), racing[i], before[i], after[i]), "not-linearizable", upto
+				}
+			}
+		}
+		// track which tuples hold daemons (for `fresh`)
+		kk := c10Join(rd.mut.key)
+		if rd.mut.kind == 'd' {
+			present[kk] |= 1 << strings.IndexByte("pbar", rd.mut.qual)
+		} else {
+			present[kk] &^= 1 << strings.IndexByte("pbar", rd.mut.qual)
+		}
+	}
+	return "", "", ""
+}
+
+func c10RunRaceLines(c *lib.Ctx, lines []string) ([]string, error) {
+	cmd := exec.Command(os.Args[0], "C10", "--root", c.Root)
+	cmd.Env = append(os.Environ(), "VH_C10_WORKER=race")
+	return c10Pipe(cmd, lines)
+}
+
+// raceFacet runs `nlines` race lines of `rounds` rounds each in `procs` worker processes.
+func (w *c10World) raceFacet(c *lib.Ctx, nlines, rounds, procs int) {
+	var lines []string
+	for i := 0; i < nlines; i++ {
+		lines = append(lines, w.raceScenario(c.Rng, rounds))
+	}
+	replies := make([][]string, procs)
+	errs := make([]error, procs)
+	per := (len(lines) + procs - 1) / procs
+	var wg sync.WaitGroup
+	for p := 0; p < procs; p++ {
+		lo, hi := p*per, (p+1)*per
+		if len(lines) < hi {
+			hi = len(lines)
+		}
+		if hi <= lo {
+			continue
+		}
+		wg.Add(1)
+		go func(p, lo, hi int) {
+			defer wg.Done()
+			replies[p], errs[p] = c10RunRaceLines(c, lines[lo:hi])
+		}(p, lo, hi)
+	}
+	wg.Wait()
+	st := &c10RaceStats{}
+	reported := false
+	for p := 0; p < procs; p++ {
+		lo := p * per
+		if errs[p] != nil {
+			hi := lo + per
+			if len(lines) < hi {
+				hi = len(lines)
+			}
+			c.Report("facet=race aspect=worker-crash", false, map[string]any{"race_batch": lines[lo:hi],
+				"observed": "the process running calls racing with defmethod / remove-method terminated: " + errs[p].Error(),
+				"expected": "every call returns",
+				"note":     "schedule dependent: --replay re-runs the batch 10 times"})
+			continue
+		}
+		for i, r := range replies[p] {
+			if strings.HasPrefix(r, "bad-request") {
+				fmt.Fprintf(os.Stderr, "C10: race line rejected: %q %s\n", lines[lo+i], r)
+				os.Exit(2)
+			}
+			bad, aspect, upto := w.raceCheck(c, lines[lo+i], r, st)
+			if bad != "" {
+				c.Ev.Count("race_lines_failed", 1)
+			}
+			if bad != "" && !reported {
+				reported = true
+				_, _, rds, _ := c10ParseRace(upto)
+				kind := "in-place"
+				if lastRd := rds[len(rds)-1]; lastRd.mut.kind == 'r' {
+					kind = "remove"
+				} else if strings.Contains(bad, "racing with") || aspect == "post-quiescence" {
+					kind = "defmethod"
+				}
+				c.Report(fmt.Sprintf("facet=race mutation=%s aspect=%s", kind, aspect), false, map[string]any{"race": upto, "observed": bad,
+					"expected": "a completed defmethod / remove-method is visible to the next call; a racing call sees the table before or after it",
+					"note":     "schedule dependent: --replay re-runs the line 200 times"})
+			}
+		}
+	}
+	c.Ev.Coverage["race_rounds"] = st.rounds
+	c.Ev.Coverage["race_rounds_fresh_tuple"] = st.fresh
+	c.Ev.Coverage["race_post_quiescence_calls_checked"] = st.postCalls
+	c.Ev.Coverage["race_racing_calls_judged"] = st.racingCalls
+	c.Ev.Coverage["race_racing_calls_saw_table_before"] = st.sawBefore
+	c.Ev.Coverage["race_racing_calls_saw_table_after"] = st.sawAfter
+	if 0 < len(lines) && errs[0] == nil && 0 < len(replies[0]) {
+		rw := strings.Fields(replies[0][0])
+		if 5 < len(rw) {
+			rw = rw[:5]
+		}
+		lw := strings.Fields(lines[0])
+		if 7 < len(lw) {
+			lw = lw[:7]
+		}
+		c.Ev.Sample(map[string]any{"family": "race-rounds", "race(first rounds)": strings.Join(lw, " "), "reply(racing/post-quiescence per round)": rw})
+	}
+}
+
+// ---------------------------------------------------------------------------------------------
 // witness: locate the first disagreeing call, shrink the history, report
 
 func (w *c10World) firstDiff(h c10Hist, impl, model string) (callIdx int, iw, mw string, ok bool) {
@@ -1404,6 +1915,52 @@ func c10Replay(c *lib.Ctx, w *c10World) {
 		fmt.Printf("replay of the concurrent batch: the process terminated in %d of 10 runs\n", crashes)
 		if 0 < crashes {
 			c.Report("replay", false, map[string]any{"scenarios": batch})
+		}
+		return
+	}
+	if rl, _ := rec["race"].(string); rl != "" {
+		lines := make([]string, 200)
+		for i := range lines {
+			lines[i] = rl
+		}
+		replies, err := c10RunRaceLines(c, lines)
+		if err != nil {
+			fmt.Println("replay: the race worker terminated:", err)
+			c.Report("replay", false, map[string]any{"race": rl})
+			return
+		}
+		fails := 0
+		st := &c10RaceStats{}
+		for i := range lines {
+			if bad, _, _ := w.raceCheck(c, rl, replies[i], st); bad != "" {
+				if fails == 0 {
+					fmt.Printf("replay %s\n  %s\n", rl, bad)
+				}
+				fails++
+			}
+		}
+		fmt.Printf("replay of the race line: %d of %d runs failed\n", fails, len(lines))
+		if 0 < fails {
+			c.Report("replay", false, map[string]any{"race": rl})
+		}
+		return
+	}
+	if batch, _ := rec["race_batch"].([]any); 0 < len(batch) {
+		var lines []string
+		for _, b := range batch {
+			if l, ok := b.(string); ok {
+				lines = append(lines, l)
+			}
+		}
+		crashes := 0
+		for i := 0; i < 10; i++ {
+			if _, err := c10RunRaceLines(c, lines); err != nil {
+				crashes++
+			}
+		}
+		fmt.Printf("replay of the race batch: the process terminated in %d of 10 runs\n", crashes)
+		if 0 < crashes {
+			c.Report("replay", false, map[string]any{"race_batch": batch})
 		}
 		return
 	}
@@ -1647,6 +2204,10 @@ func runC10(c *lib.Ctx) {
 			}
 		}
 		c.Ev.Coverage["model_run_vs_spec_sampled"] = len(ra)
+	}
+	if only := os.Getenv("VH_C10_ONLY"); only == "" || only == "race" {
+		// quick: 240 generic functions x 250 rounds in 6 processes; thorough: 1200 x 300 in 10
+		w.raceFacet(c, c.Scale(240, 1200), c.Scale(250, 300), c.Scale(6, 10))
 	}
 	if only := os.Getenv("VH_C10_ONLY"); c.Thorough() && (only == "" || only == "conc") {
 		var lines []string
